@@ -267,7 +267,7 @@ class Writer:
                     out.append(self.ws(must))
             out.append(txt)
             if self.fmt in ("nt", "nquads") and kind == "dot":
-                out.append(self.ws(False) + self.rng.choice(["\n", "\n", "\r\n", " # comment\n", "\n\n", "\n# line comment\n"]))
+                out.append(self.ws(False) + self.rng.choice(["\n", "\n", "\r\n", "\r", " # comment\n", "\n\n", "\r\r", "\n# line comment\n", " # comment\r"]))      # EOL ::= [#xD#xA]+
         text = "".join(out)
         if self.fmt in ("turtle", "trig") and self.rng.random() < 0.3:
             text = "# leading comment\n" + text
